@@ -174,6 +174,15 @@ def one_case(ctx, case, tag="gen"):
             elif [t["forms"] for t in model["translations"]] != [t["forms"] for t in obs["translations"]]:
                 ctx.mismatch("<value form> lists per text (content types, their order, '-' media omitted)", case,
                              [t["forms"] for t in obs["translations"]], [t["forms"] for t in model["translations"]])
+            else:
+                # value texts, wherever the model states them (texts without <output> substitution)
+                for tm, ti in zip(model["translations"], obs["translations"]):
+                    for pid, vm, vi in zip(tm["ids"], tm["values"], ti["values"]):
+                        bad = [(a, b) for a, b in zip(vm, vi) if a is not None and a != b]
+                        if bad:
+                            ctx.mismatch("<value> text", case, {"lang": ti["lang"], "id": pid, "impl": vi}, vm)
+                        ctx.count("values-compared", sum(1 for a in vm if a is not None))
+                        ctx.count("values-not-stated", sum(1 for a in vm if a is None))
             for k in ("bodyRefs", "bindRefs", "itemIds"):
                 if obs[k] != model[k]:
                     ctx.mismatch(k, case, obs[k], model[k])
